@@ -163,6 +163,13 @@ def bracket_lexer(stream):
                 whitespacebuf = StringIO()
             tokenbuf.write(character)
         character = stream.read(1)
+    # deliver what is still buffered at the end of the input
+    tval = tokenbuf.getvalue()
+    if len(tval) > 0:
+        yield tval, "TOKEN"
+    wval = whitespacebuf.getvalue()
+    if len(wval) > 0:
+        yield wval, "WS"
 
 
 def brackets(in_file, in_encoding, **params):
